@@ -99,6 +99,7 @@ def _(E, m, a, c0):
 
 # ------------------------------------------------------------------ lazy_static character sets (lex.rs: OPERATOR_SYMBOLS): the set of characters spelled in the source
 from .iters import pfirst as _pfirst
+from .hashmap import find, _mapref
 import os as _os
 def _charset_from_source(name):
     from lib.common import REPO
@@ -113,7 +114,10 @@ def _(E, m, a, c0): return Ref(Cell(Adt('CharSet', None, [_charset_from_source(m
 @_pfirst(r'(?:std::collections::)?(?:hash_set::)?HashSet::<char>::contains(?:::<char>)?|(?:std::collections::)?(?:hash_set::)?HashSet::contains')
 def _(E, m, a, c0):
     v = E.deref(a[0])
-    if not (isinstance(v, Adt) and v.ty == 'CharSet'): return NotImplemented
+    if not (isinstance(v, Adt) and v.ty == 'CharSet'):
+        # any other HashSet (e.g. HashSet<String> in freeze): the generic association-list membership (this model is registered with
+        # priority and the dispatcher takes the first match only, so it has to serve both)
+        return z3.BoolVal(find(E, _mapref(E, a[0]), a[1]) is not None)
     c = E.deref(a[1])
     return z3.Or(*[c == k for k in v.fields[0]])
 
